@@ -314,6 +314,7 @@ M_S1 = impl('S1 (one stream, caller may cancel)', streams=['s1'], cancel=True)
 M_S1M2 = impl('S1m2 (one stream, two messages each way)', streams=['s1'], maxc=2, maxs=2, cancel=True, tiers=['thorough'])
 M_S1U1 = impl('S1U1 (one stream + one unary call, 2 workers)', unaries=['u1'], streams=['s1'], workers=2, cancel=True, tiers=['thorough'], tlc_workers=14)
 M_U2 = impl('U2 (two unary calls, 2 workers)', unaries=['u1', 'u2'], workers=2, early=False)
+M_U2C = impl('U2c (two unary calls, 2 workers, callers may give up, transport capacity 1)', unaries=['u1', 'u2'], workers=2, early=False, cancel=True, cap=1)
 M_U2RF = impl('U2rf (two unary calls, client read failure anywhere)', unaries=['u1', 'u2'], workers=2, readfail=True, early=False)
 M_S1RF = impl('S1rf (one stream, cancel and client read failure anywhere)', streams=['s1'], cancel=True, readfail=True, tiers=['thorough'])
 M_S1STOP = impl('S1stop (one stream, Stop anywhere)', streams=['s1'], stop=True)
@@ -345,9 +346,9 @@ M_ADVS3U = impl('AdvS3u (adversarial server: any 3 envelopes to a unary call, th
 M_ADVS3S = impl('AdvS3s (adversarial server: any 3 envelopes to a stream whose caller may cancel)', streams=['s1'], maxc=0, maxs=0, cancel=True, advs=3, tiers=['thorough'])
 B_ADVS_D7C = impl('Bug_D7c under an adversarial server', unaries=['u1'], maxc=0, maxs=0, advs=3, without='D7c', expect='Deadlock reached', tlc_workers=4)
 
-for _p, _ms in {'C12': [M_ADVC3, B_ADVC_D7S, M_ADVC4], 'C13': [M_ADVS3U, B_ADVS_D7C, M_ADVS3S], 'C01': [M_U2], 'C02': [M_S1, B_D1, M_S1M2], 'C03': [M_S1, B_D4], 'C05': [M_U2, M_S1], 'C06': [M_S1, B_D4],
+for _p, _ms in {'C12': [M_ADVC3, B_ADVC_D7S, M_ADVC4], 'C13': [M_ADVS3U, B_ADVS_D7C, M_ADVS3S], 'C01': [M_U2, M_U2C], 'C02': [M_S1, B_D1, M_S1M2], 'C03': [M_S1, B_D4], 'C05': [M_U2, M_S1], 'C06': [M_S1, B_D4],
                 'C07': [M_S1, B_D7C, B_D24, M_HW0, K_D23, M_S1M2], 'C09': [M_U2RF, B_D5, M_S1RF], 'C10': [M_S1STOP, M_U2STOP, B_D6],
-                'C11': [M_S1, B_D7S, B_D7C, K_D25, M_S1CAP3, M_S1CAPC, M_S1U1], 'C14': [M_S1, M_U2, M_S1SF, B_D22, M_S1SF2]}.items():
+                'C11': [M_S1, B_D7S, B_D7C, K_D25, M_S1CAP3, M_S1CAPC, M_S1U1], 'C14': [M_S1, M_U2, M_U2C, M_S1SF, B_D22, M_S1SF2]}.items():
     PROPS[_p]['models'] = list(PROPS[_p].get('models', [])) + _ms
 
 
